@@ -19,6 +19,7 @@ import time
 
 import common
 import c14_gen as g
+import c14_zoo as zoo
 
 GEN_FILE = os.path.join(common.COQ, "Generated", "C14_Builtins.v")
 
@@ -332,6 +333,38 @@ def run_module(classes, recs, names, idx, res, stats, model_codes, tag, pre, tex
   return mism_py, mism_c
 
 
+def run_zoo(res, stats, zsts, ztexts, zpy):
+  """Oracle-only sweep over the class zoo (harness/props/c14_zoo.py): features outside the Coq model."""
+  cp = g.run_cpython(zoo.ZOO_SOURCE, ztexts)
+  n = 0
+  for s, t, (errs, typ), (exc, msg, _) in zip(zsts, ztexts, zpy, cp):
+    if errs == g.NO_RESULT:
+      stats["no_result"].append(dict(stmt=t, why=typ))
+      continue
+    n += 1
+    flagged, raised = bool(errs), g.is_type_error(exc)
+    stats["kinds"]["zoo:" + s["kind"]] += 1
+    res.count(("zoo", t))
+    pre = zoo.ZOO_SOURCE if "Z" in t or "zf_" in t else ""
+    if flagged and not raised:
+      fp = zoo.fingerprint(s, "fp", exc)
+      stats["fp"][fp] += 1
+      if stats["fp"][fp] == 1 and (fp in res.known or len(res.violations) < 3):
+        res.violation(fp, f"pytype reports {errs} on `{t}`; CPython: "
+                      + (f"raises {exc} (not a TypeError/AttributeError)" if exc else "runs cleanly"),
+                      dict(classes=pre, stmt=t, pytype=errs, cpython=exc, kind="fp"))
+    if raised and not flagged and zoo.advertised(s, exc, msg):
+      fp = zoo.fingerprint(s, "fn", exc)
+      stats["fn"][fp] += 1
+      if stats["fn"][fp] == 1 and (fp in res.known or len(res.violations) < 3):
+        res.violation(fp, f"CPython raises {exc} ({msg[:70]}) on `{t}`; pytype reports nothing",
+                      dict(classes=pre, stmt=t, pytype=errs, cpython=exc, kind="fn"))
+  res.extra["zoo_statements_oracle_only"] = n
+  res.extra["zoo_note"] = ("class zoo (__getattr__/__getattribute__, __slots__, properties, static/classmethods, "
+                           "subclasses of int/list/dict, instance-assigned dunders, bytearray, range) is checked by "
+                           "the CPython oracle only; it is not in the Coq model")
+
+
 # ------------------------------------------------------------------------------------------
 
 def translator_checks(res, data):
@@ -453,7 +486,10 @@ def run(res):
   all_py, all_c = [], []
   n_model = 0
   srcs = [module_texts(cl, rs) for _, cl, rs in modules]
-  py_all = g.run_pytype_many(srcs)
+  zsts = zoo.statements()
+  ztexts = [zoo.text(s, j) for j, s in enumerate(zsts)]
+  py_all = g.run_pytype_many(srcs + [(zoo.ZOO_SOURCE, ztexts)])
+  zpy = py_all.pop()
   g.close_pool()
   res.extra["seconds_pytype"] = round(time.time() - t1, 1)
   for (tag, cl, rs), mc, (pre, texts), py in zip(modules, codes, srcs, py_all):
@@ -461,6 +497,7 @@ def run(res):
     all_py += a
     all_c += b
     n_model += sum(1 for rc in rs if rc["model"])
+  run_zoo(res, stats, zsts, ztexts, zpy)
   res.obligation("correspondence:model-vs-real-pytype", not all_py,
                  f"{len(all_py)} of {n_model} statements disagree; first: {json.dumps(all_py[:4], default=str)}")
   res.obligation("correspondence:model-vs-CPython", not all_c,
